@@ -451,6 +451,7 @@ func registerIntrinsics(e *Engine) {
 	registerAtomicModels(e)
 	registerFormatBool(e)
 	registerReflectTypeOf(e)
+	registerReflectliteTypeOf(e)
 }
 
 // ---------------------------------------------------------------------------
